@@ -138,6 +138,43 @@ fn pool(quick: bool) -> Vec<Value> {
     v
 }
 
+/// The thorough pool: the quick pool followed by every record with at most two items (value
+/// items and slots over four atoms of different kinds), without attributes, with a bare
+/// attribute and with an attribute carrying each atom - so that the recursive comparison of
+/// records is exercised on every pair and triple of shapes, not on a hand-picked few.
+fn pool_deep() -> Vec<Value> {
+    let mut v = pool(false);
+    let sub: Vec<Value> = vec![Value::Int32Value(1), Value::Float64Value(1.0), Value::Text(Text::new("a")), Value::Extant];
+    let mut items: Vec<Item> = vec![];
+    for a in &sub {
+        items.push(Item::ValueItem(a.clone()));
+    }
+    for a in &sub {
+        for b in &sub {
+            items.push(Item::Slot(a.clone(), b.clone()));
+        }
+    }
+    let mut bodies: Vec<Vec<Item>> = vec![vec![]];
+    for a in &items {
+        bodies.push(vec![a.clone()]);
+    }
+    for a in &items {
+        for b in &items {
+            bodies.push(vec![a.clone(), b.clone()]);
+        }
+    }
+    let mut attrs: Vec<Vec<Attr>> = vec![vec![], vec![Attr::of("t")]];
+    for a in &sub {
+        attrs.push(vec![Attr::of(("t", a.clone()))]);
+    }
+    for at in &attrs {
+        for b in &bodies {
+            v.push(Value::Record(at.clone(), b.clone()));
+        }
+    }
+    v
+}
+
 fn kind(v: &Value) -> String {
     match v {
         Value::Float64Value(x) => {
@@ -166,18 +203,20 @@ fn h(v: &Value) -> u64 {
 
 fn main() {
     let ctx = Ctx::from_env("C19");
-    // the whole pool runs in well under a second: both tiers use it
-    let p = pool(false);
+    // the boundary pool runs in well under a second: both tiers use it; the thorough tier appends
+    // the systematic record pool (indices of the boundary pool stay valid in it)
+    let p = if ctx.quick() { pool(false) } else { pool_deep() };
     let n = p.len();
 
     if let Some(r) = ctx.replay_request() {
         // replay: indices into the pool printed as debug strings; re-evaluate the law on them
         let d = &r["detail"];
         let idx: Vec<usize> = d["indices"].as_array().unwrap().iter().map(|x| x.as_u64().unwrap() as usize).collect();
-        let pool_full = pool(false);
+        let pool_full = pool_deep();
         let vals: Vec<&Value> = idx.iter().map(|i| &pool_full[*i]).collect();
         let law = d["law"].as_str().unwrap();
-        if let Some(e) = eval_law(law, &vals) {
+        let e = if law.starts_with("drop_take_") { drop_take_laws(&vals).into_iter().find(|(l, _)| l == law).map(|(_, e)| e) } else { eval_law(law, &vals) };
+        if let Some(e) = e {
             ctx.violation("replay", r["signature"].as_str().unwrap(), json!({"law": law, "values": format!("{:?}", vals), "explanation": e}));
         }
         ctx.finish("model_checking", "replay");
@@ -400,6 +439,67 @@ fn main() {
         wall_s: t0.elapsed().as_secs_f64(),
     });
 
+    // ---- the real drop_or_take of the map lanes / stores (take / drop of the first n keys)
+    let t0 = Instant::now();
+    {
+        // one representative per ==-class of the boundary pool (a map cannot hold two equal keys)
+        let base_n = if ctx.quick() { atoms().len() } else { pool(false).len() };
+        let reps: Vec<usize> = (0..base_n).filter(|&i| (0..i).all(|j| !eqm[j][i])).collect();
+        let m = reps.len();
+        let counts: Vec<(u64, u64)> = vcommon::par_map(&reps, vcommon::ncpu(), |ri, &i| {
+            let (mut sets, mut calls) = (0u64, 0u64);
+            let mut run = |idx: &[usize]| {
+                // as for the triples: a set is examined only if each of its pairs satisfies the
+                // pair laws (otherwise the pair-level report is the canonical form of the defect)
+                if idx.iter().any(|&a| idx.iter().any(|&b| !pair_ok[a][b])) {
+                    return;
+                }
+                let vals: Vec<&Value> = idx.iter().map(|i| &p[*i]).collect();
+                sets += 1;
+                calls += (vals.len() as u64 + 2) * 4 * if vals.len() == 3 { 6 } else { vals.len() as u64 };
+                for (law, e) in drop_take_laws(&vals) {
+                    report(&law, idx, e);
+                }
+            };
+            run(&[i]);
+            for (rj, &j) in reps.iter().enumerate().skip(ri + 1) {
+                run(&[i, j]);
+                for &k in reps.iter().skip(rj + 1) {
+                    run(&[i, j, k]);
+                }
+            }
+            (sets, calls)
+        });
+        // the whole class-representative set at once (sort_by on a long slice is where std
+        // detects an inconsistent order)
+        // - restricted, greedily, to representatives whose pairs satisfy the pair laws
+        let mut good: Vec<usize> = vec![];
+        for &i in &reps {
+            if pair_ok[i][i] && good.iter().all(|&g| pair_ok[g][i] && pair_ok[i][g]) {
+                good.push(i);
+            }
+        }
+        let all: Vec<&Value> = good.iter().map(|i| &p[*i]).collect();
+        for (law, e) in drop_take_laws(&all) {
+            report(&law, &good[..good.len().min(3)], format!("(all {} law-abiding representatives) {}", good.len(), e));
+        }
+        let sets: u64 = counts.iter().map(|c| c.0).sum::<u64>() + 1;
+        let calls: u64 = counts.iter().map(|c| c.1).sum();
+        ctx.add_leg(Leg {
+            name: "drop_or_take".into(),
+            engine: "E4-enum".into(),
+            states: sets,
+            transitions: calls,
+            evaluations: calls,
+            distinct_nontrivial: sets.saturating_sub(m as u64),
+            rule: "every set of 1, 2 or 3 pairwise unequal keys (one representative per ==-class; sets containing a pair that already breaks a pair law are left to the pairs leg) and the largest greedy law-abiding representative set, in a HashMap (every insertion order for <= 3 keys) and a BTreeMap, through swimos_agent's drop_or_take for every n in 0..=len+1; non-trivial = sets with at least two keys".into(),
+            samples: vec![json!(format!("{:?}", reps.iter().take(3).map(|i| &p[*i]).collect::<Vec<_>>()))],
+            exhaustive: true,
+            bounds: json!({"representatives": m, "law_abiding_representatives_in_whole_set_run": good.len(), "max_set": 3, "n": "0..=len+1"}),
+            wall_s: t0.elapsed().as_secs_f64(),
+        });
+    }
+
     for (sig, d) in found.into_inner().unwrap() {
         ctx.violation("laws", &sig, d);
     }
@@ -409,6 +509,86 @@ fn main() {
         "model_checking",
         "bounded-exhaustive enumeration of all pairs and triples of a boundary pool against the Eq/Ord/Hash laws, on the real Value impls",
     );
+}
+
+/// The laws of `drop_or_take` over a set of pairwise unequal keys: for every n, `Drop` names the
+/// first n keys and `Take` the others, in the order of `Value::cmp`, whatever the backing map and
+/// the order in which the keys were inserted.
+fn drop_take_laws(keys: &[&Value]) -> Vec<(String, String)> {
+    use swimos_agent::verif_hooks::{drop_or_take, DropOrTake};
+    let mut out: Vec<(String, String)> = vec![];
+    let mut add = |law: &str, e: String| {
+        if !out.iter().any(|(l, _)| l == law) {
+            out.push((law.to_string(), e));
+        }
+    };
+    let len = keys.len();
+    let orders: Vec<Vec<usize>> = match len {
+        1 => vec![vec![0]],
+        2 => vec![vec![0, 1], vec![1, 0]],
+        3 => vec![vec![0, 1, 2], vec![0, 2, 1], vec![1, 0, 2], vec![1, 2, 0], vec![2, 0, 1], vec![2, 1, 0]],
+        _ => vec![(0..len).collect(), (0..len).rev().collect()],
+    };
+    let r = std::panic::catch_unwind(|| {
+        let mut results: Vec<(String, usize, Vec<Value>, Vec<Value>)> = vec![];
+        for (oi, order) in orders.iter().enumerate() {
+            let mut hm: HashMap<Value, ()> = HashMap::new();
+            let mut bm: BTreeMap<Value, ()> = BTreeMap::new();
+            for &i in order {
+                hm.insert(keys[i].clone(), ());
+                if oi == 0 {
+                    bm.insert(keys[i].clone(), ());
+                }
+            }
+            let ns: Vec<usize> = if len <= 3 { (0..=len + 1).collect() } else { vec![0, 1, len / 2, len - 1, len, len + 1] };
+            for n in ns {
+                let d: Vec<Value> = drop_or_take::<Value, (), _>(&hm, DropOrTake::Drop, n).into_iter().collect();
+                let t: Vec<Value> = drop_or_take::<Value, (), _>(&hm, DropOrTake::Take, n).into_iter().collect();
+                results.push((format!("hash#{}", oi), n, d, t));
+                if oi == 0 {
+                    let d: Vec<Value> = drop_or_take::<Value, (), _>(&bm, DropOrTake::Drop, n).into_iter().collect();
+                    let t: Vec<Value> = drop_or_take::<Value, (), _>(&bm, DropOrTake::Take, n).into_iter().collect();
+                    results.push(("btree".into(), n, d, t));
+                }
+            }
+        }
+        results
+    });
+    let results = match r {
+        Err(_) => {
+            add("drop_take_no_panic", "drop_or_take (or building the map) panicked".into());
+            return out;
+        }
+        Ok(r) => r,
+    };
+    let mut reference: BTreeMap<usize, (Vec<Value>, Vec<Value>)> = BTreeMap::new();
+    for (backing, n, d, t) in &results {
+        if d.len() != (*n).min(len) || d.len() + t.len() != len {
+            add("drop_take_partition", format!("{} n={}: drop names {} keys and take {} of {}", backing, n, d.len(), t.len(), len));
+        }
+        let all: Vec<&Value> = d.iter().chain(t.iter()).collect();
+        for k in keys {
+            if all.iter().filter(|x| **x == *k).count() != 1 {
+                add("drop_take_partition", format!("{} n={}: key {:?} is named {} times by drop+take", backing, n, k, all.iter().filter(|x| **x == *k).count()));
+            }
+        }
+        for w in all.windows(2) {
+            if w[0].cmp(w[1]) != Ordering::Less {
+                add("drop_take_sorted", format!("{} n={}: {:?} comes before {:?} although cmp is {:?}", backing, n, w[0], w[1], w[0].cmp(w[1])));
+            }
+        }
+        match reference.get(n) {
+            None => {
+                reference.insert(*n, (d.clone(), t.clone()));
+            }
+            Some((d0, t0)) => {
+                if d0 != d || t0 != t {
+                    add("drop_take_same_for_every_backing_and_insertion_order", format!("n={}: {} gives drop {:?} take {:?} but the first run gave drop {:?} take {:?}", n, backing, d, t, d0, t0));
+                }
+            }
+        }
+    }
+    out
 }
 
 fn eval_law(law: &str, v: &[&Value]) -> Option<String> {
